@@ -17,7 +17,11 @@ use worterbuch::{Config, verif::Worterbuch};
 use worterbuch_common::Protocol;
 
 pub fn scratch_root() -> PathBuf {
-    let base = std::env::var("VERIF_SCRATCH").unwrap_or_else(|_| "/tmp".to_owned());
+    // scratch data lives on tmpfs when there is one (fsync-heavy redb commits, thousands of small
+    // directories); nothing in it outlives the run
+    let base = std::env::var("VERIF_SCRATCH").unwrap_or_else(|_| {
+        if std::path::Path::new("/dev/shm").is_dir() { "/dev/shm".to_owned() } else { "/tmp".to_owned() }
+    });
     let p = PathBuf::from(base).join(format!("wbmc-{}", std::process::id()));
     std::fs::create_dir_all(&p).expect("MACHINERY: scratch dir");
     p
